@@ -16,6 +16,7 @@
 -/
 import RbpfModel.Lemmas.ClifSim.All
 import RbpfModel.Props.C04
+import RbpfModel.Lemmas.TaintInterp
 namespace Rbpf
 open Rbpf.ClifAst Rbpf.ClifSem Rbpf.ClifSim
 
@@ -110,4 +111,30 @@ example : value (Interp.run env (init2 mem) 10) = some 7 ∧ value (Interp.run e
   constructor <;> decide +kernel
 
 end C04IrEx
+end Rbpf
+
+/-! ### the in-claim version: the dependence on r2 at entry discharged by the taint run -/
+namespace Rbpf
+open Rbpf.ClifAst Rbpf.ClifSem Rbpf.ClifSim
+
+/-- **IR function = interpreter on every case the checks call in-claim.**  `C04_ir_interp` speaks about the interpreter
+    started with r2 = the length Cranelift's prelude puts there; when the taint run of the interpreter model (from the
+    interpreter's own initial state, r2 = 0) returns `r0` with `inClaim = true`, the run does not depend on r2 at entry
+    (`taint_interpIndep`), so the IR function returns what the interpreter returns from its own initial state, leaves the same
+    packet / metadata / registered ranges and makes the same helper calls.  `hdisj`: as in `C03_taint_sound` (the private
+    stack shares no byte with the metadata buffer nor with the packet; true of real memory). -/
+theorem C04_ir_inclaim (env : Env) (tr : List (Nat × List Op)) (htr : translate env.prog (helperSet env) = some tr)
+    (hv : Verifier.check env.prog = .ok) (m : Memory) (hm : MemOk m) (fuel : Nat) (ptrSlots patched : List Nat)
+    (t : Taint.TState) (r0 : BitVec 64) (sfin : State)
+    (hl : NoLocalCall env.prog) (h7 : NoF7 env.prog) (hal : env.allowed = [])
+    (hdisj : ∀ a w, 0 < w → m.stack.contains a w = true → m.mbuff.contains a w = false ∧ m.mem.contains a w = false)
+    (hrun : Taint.run env ptrSlots patched fuel (Taint.init m) = (t, .done r0 sfin)) (hin : t.inClaim = true) :
+    ∃ k σ' s', Interp.run env (Interp.init m) fuel = .done r0 s' ∧ runFunction env tr m k = .ret r0 σ' ∧
+      SameData σ'.mem s'.mem ∧ σ'.log = s'.log := by
+  obtain ⟨a, b, ha, hb, hmem, hlog⟩ :=
+    taint_interpIndep env m fuel ptrSlots patched t r0 sfin hl h7 hdisj hrun hin (init2 m) rfl rfl rfl rfl
+      (Vector.getElem?_setIfInBounds_ne (by decide)) (Vector.getElem?_setIfInBounds_ne (by decide))
+  obtain ⟨k, σ', hk, hm', hl'⟩ := C04_ir_interp env tr htr hv m hm fuel hl h7 hal r0 b hb
+  exact ⟨k, σ', a, ha, hk, by rw [hm']; exact hmem, by rw [hl']; exact hlog⟩
+
 end Rbpf
